@@ -112,7 +112,7 @@ func c05GenField(rt *rapid.T, cfg *c05GenCfg, depth int, prefix string, idx int)
 		f.W = append(f.W, c05Pick(rt, "word", c05Words))
 	}
 	names := []string{"scalar", "pscalar", "slice", "map", "struct", "pstruct", "embedded"}
-	weights := []int{58, 8, 10, 8, 9, 3, 4}
+	weights := []int{55, 8, 13, 8, 9, 3, 4}
 	if depth >= cfg.maxDepth {
 		weights[4], weights[5], weights[6] = 0, 0, 0
 	}
@@ -144,6 +144,24 @@ func c05GenField(rt *rapid.T, cfg *c05GenCfg, depth int, prefix string, idx int)
 		}
 		return f
 	}
+	structDefault := false
+	if shape == "slice" && f.T.E.K == "struct" && rapid.IntRange(0, 9).Draw(rt, "structdefault") < 4 {
+		// []struct (or []*struct) with default=[{...},{}]: the element struct must be satisfiable by {}
+		// and carries its own defaulted slice field
+		structDefault = true
+		c05MakeDefaultable(rt, cfg, f.T.E.F)
+		inner := c05Fld{W: []string{"dflt", c05Pick(rt, "word", c05Words)}, Tag: cfg.tag, KS: "camel"}
+		if rapid.Bool().Draw(rt, "innerstr") {
+			inner.T = c05Typ{K: "slice", E: &c05Typ{K: "string"}}
+			d := c05Pick(rt, "sdefs", []string{"[x,y]", "[a]", "[GET,POST]"})
+			inner.Def = &d
+		} else {
+			inner.T = c05Typ{K: "slice", E: &c05Typ{K: c05Pick(rt, "innerint", []string{"int", "int16", "uint8", "float64"})}}
+			d := c05Pick(rt, "sdefn", []string{"[1,2]", "[7]", "[200,204]"})
+			inner.Def = &d
+		}
+		f.T.E.F = append(f.T.E.F, inner)
+	}
 	// tag
 	switch c05W(rt, "tagged", []string{"tag", "untagged", "other"}, []int{91, 6, 3}) {
 	case "untagged":
@@ -155,12 +173,51 @@ func c05GenField(rt *rapid.T, cfg *c05GenCfg, depth int, prefix string, idx int)
 	f.Tag = cfg.tag
 	f.KS = c05Pick(rt, "keystyle", cfg.keyStyles)
 	c05GenOptions(rt, &f)
+	if structDefault {
+		d := c05Pick(rt, "structdef", []string{"[{}]", "[{},{}]", "[{},{},{}]"})
+		if k := c05FirstSettable(f.T.E.F); k != "" && rapid.Bool().Draw(rt, "structdefkey") {
+			d = "[{" + strconv.Quote(k) + ":true},{}]"
+		}
+		f.Def = &d
+	}
 	if depth > 1 && prefix == "" && c05IsScalar(f.T.K) && !f.Env && !f.Inh && rapid.IntRange(0, 5).Draw(rt, "nestedinherit") == 0 {
 		// fields of nested structs: inherit is only observable there
 		f.Inh = true
 		f.W = append([]string{"inh"}, f.W...)
 	}
 	return f
+}
+
+// c05MakeDefaultable rewrites the fields of an element struct so that the empty
+// object {} satisfies it: everything optional or defaulted, nothing untagged.
+func c05MakeDefaultable(rt *rapid.T, cfg *c05GenCfg, fs []c05Fld) {
+	for i := range fs {
+		f := &fs[i]
+		if f.Anon {
+			c05MakeDefaultable(rt, cfg, f.T.F)
+			continue
+		}
+		if f.Tag == "-other" {
+			continue
+		}
+		if f.Tag == "" {
+			f.Tag, f.KS = cfg.tag, "camel"
+		}
+		if f.Def == nil {
+			f.Opt = true
+		}
+	}
+}
+
+// c05FirstSettable: key of a plain bool field of the element struct (for default=[{"k":true},{}]).
+func c05FirstSettable(fs []c05Fld) string {
+	for i := range fs {
+		f := &fs[i]
+		if !f.Anon && f.Tag != "" && f.Tag != "-other" && f.T.K == "bool" && !f.T.P && !f.Str && !f.Env && f.KS != "" {
+			return f.key(i)
+		}
+	}
+	return ""
 }
 
 func c05GenOptions(rt *rapid.T, f *c05Fld) {
